@@ -143,6 +143,7 @@ type Op struct {
 	Dur  int64  `json:"dur,omitempty"`  // gauge / lock duration (ns)
 	C    int    `json:"c,omitempty"`    // gauge: index into GaugeCoins ; add: index into AddCoins
 	Fut  bool   `json:"fut,omitempty"`  // gauge: start = now + FutureLag (else now)
+	Tie  bool   `json:"tie,omitempty"`  // gauge: start = now + EpochStep: if the next symbol is `epoch`, the start time equals the block time of the epoch-end block to the nanosecond
 	N    uint64 `json:"n,omitempty"`    // gauge: epochs paid over
 	G    int    `json:"g,omitempty"`    // add: gauge index in the ledger
 	L    int    `json:"l,omitempty"`    // unlock / punlock / setrr: lock index in the ledger
@@ -154,6 +155,9 @@ type Op struct {
 func (o Op) String() string {
 	switch o.K {
 	case "gauge":
+		if o.Tie {
+			return fmt.Sprintf("gauge{%s perp=%v >=%s %s start=now+epoch-step n=%d}", o.A, o.Perp, time.Duration(o.Dur), GaugeCoins[o.C], o.N)
+		}
 		return fmt.Sprintf("gauge{%s perp=%v >=%s %s fut=%v n=%d}", o.A, o.Perp, time.Duration(o.Dur), GaugeCoins[o.C], o.Fut, o.N)
 	case "add":
 		return fmt.Sprintf("add{%s g#%d %s}", o.A, o.G, AddCoins[o.C])
@@ -621,6 +625,9 @@ func (w *World) Apply(ctx sdk.Context, l *Ledger, op Op, fail func(a, s, d strin
 		start := ctx.BlockTime()
 		if op.Fut {
 			start = start.Add(FutureLag)
+		}
+		if op.Tie {
+			start = start.Add(EpochStep)
 		}
 		coins := GaugeCoins[op.C]
 		msg := &inctypes.MsgCreateGauge{IsPerpetual: op.Perp, Owner: owner.String(),
